@@ -20,7 +20,8 @@ Inductive kevent :=
 Inductive kact :=
 | KTick (now : N) (write_ok : bool)
 | KPong (now : N)
-| KRecovered                 (* a recovery succeeded: fresh connection context, awaited heartbeat forgotten *)
+| KRecovered (now : N)       (* a recovery succeeded: fresh connection context, awaited heartbeat forgotten, and the
+                                peer gets the whole timeout for its first answer (lastPongAt := now), as after Dial *)
 | KReconnecting (b : bool)
 | KPeerPing (id : N) (body : bytes).
 
@@ -34,7 +35,7 @@ Definition kstep (timeout : N) (s : kstate) (a : kact) : kstate * list kevent :=
         if ok then (mkK id (k_last_pong s) id (k_reconnecting s), [KPing id id])
         else (mkK (k_last_ka s) (k_last_pong s) id (k_reconnecting s), [KRecycle])
   | KPong now => (mkK (k_last_ka s) now (k_counter s) (k_reconnecting s), [])
-  | KRecovered => (mkK 0 (k_last_pong s) 0 false, [])
+  | KRecovered now => (mkK 0 now 0 false, [])
   | KReconnecting b => (mkK (k_last_ka s) (k_last_pong s) (k_counter s) b, [])
   | KPeerPing id body => (s, [KEcho id body])
   end.
